@@ -2,7 +2,28 @@
 HOOK_COMMITS = []
 _NOTYET = "check not built yet in this session (will be claimed once its model, theorem and correspondence exist)"
 NOT_APPLICABLE = {("C%02d" % i): _NOTYET for i in range(1, 21)}
+_TB = "Trusted: Coq 8.16.1 kernel + VM (vm_compute; no native_compute, no extraction); axioms per Print Assumptions in the evidence; the hand-written models (coq/*.v) are tied to /repo only by the correspondence harnesses (harness/*.cpp, checks/*.py, tools/*.py), g++/libstdc++/libm/expat; binary64 rounding is not modelled (tolerance 1e-8 relative against an exact rational reference)."
 CHECKS = {
+    "C01": {
+        "text": "Coq theorems over every real field and all dimensions (MathComp matrices): normal equations => minimal v'Pv; a minimiser orthogonal to null(A) in the selected inner product has minimal selected norm; homogenisation (whitening) equivalence; exact expansion bounding the optimality loss of any candidate. Correspondence: 4 algorithms x {Adj, AdjBase} on generated problems (banded/full covariance blocks, defect 0..2, subsets) compared inside coqc with the exact rational reference model QLsq.adjust whose own optimality conditions are certified exactly per case.",
+        "ref": "DESIGN.md section 3 C01", "note": _TB,
+        "technique": "Coq proof (MathComp linear algebra) + exact-rational reference model evaluated by vm_compute against the rebuilt solvers",
+    },
+    "C02": {
+        "text": "Coq theorems: any two solutions of the normal equations have equal residuals and sum of squares; the minimum-norm solution is unique when the selection resolves the defect, so every correct algorithm returns the same adjustment. Correspondence: all 4 algorithms x 2 entry points against one exact reference (x, r, ssq, defect, all q_xx, q_bb; non-resolving subsets must raise BadRegularization everywhere) and gama-local --algorithm X on generated networks incl. ill-posed ones (all adjust identically or all refuse).",
+        "ref": "DESIGN.md section 3 C02", "note": _TB,
+        "technique": "Coq proof (uniqueness theorems) + solver-level and end-to-end differential correspondence",
+    },
+    "C03": {
+        "text": "Coq theorems: A Q A' is a symmetric projector with diagonal in [0,1] for every symmetric reflexive g-inverse Q of A'A; redundancy numbers sum to m - tr(QN) (= m-n when regular); T Q0 T' is again a symmetric PSD reflexive g-inverse when N T = N. Correspondence: q_xx for all index pairs (inside/outside the envelope) and Adj::q_bb against the exact reference Q = T Q0 T' inside coqc; exact N Q N = N, Q N Q = Q, Q S G = 0 on the implementation's numbers as search oracle; --cov-band restriction relation and PSD of the XML covariance end to end.",
+        "ref": "DESIGN.md section 3 C03", "note": _TB,
+        "technique": "Coq proof (g-inverse / projector algebra) + exact-rational cofactor reference evaluated by vm_compute",
+    },
+    "C04": {
+        "text": "Coq theorems by induction over arbitrary request sequences: the move-to-front cache keeps its buffers a permutation and its keys distinct, a hit returns the bound buffer; a memo cache on top of it that is flushed on every change of the regularisation answers every finite history like a fresh computation, and the unflushed variant (the pinned AdjEnvelope) is refuted with a 3-step witness. Correspondence: MoveToFront<3> vs model on all key sequences <=5 over 4 keys; random and exhaustive short API histories on the four real solver classes under ASan+UBSan, each answer compared with a fresh object.",
+        "ref": "DESIGN.md section 3 C04", "note": _TB + " The numerical kernels are abstract in the cache model (a function of mode and key); their determinism is what the history harness measures.",
+        "technique": "Coq proof (invariant by induction over operation sequences) + history-vs-fresh differential harness",
+    },
     "C12": {
         "text": "Coq theorems: str2xml's output is decoded back to the input by standard XML entity decoding for every byte string (hence no raw < or &), and is injective; correspondence K: Strings.str2xml vs GNU_gama::str2xml exhaustively on short strings over an alphabet with all XML specials plus random hostile strings, compared inside coqc",
         "ref": "DESIGN.md section 3 C12",
